@@ -501,7 +501,7 @@ func main() {
 		"identical after a failed input + compiled hook counter unchanged; after a successful input only the probes of the names it declares change, to the generator's values "+
 		"(variables of the previous definition of a redefined type keep type, field, methods, value). A method declared in a failing input is the known-finding class (not generated; corpus replays it). "+
 		"corpus/C15/*.json (exact histories of DESIGN section 7 #10, #11 and of the findings repaired by C15-1/C15-2) run first. non-trivial: the history contains >=1 failing input that follows >=3 live names and >=1 redefinition; distinct by SHA-256 of the sources")
-	wd := vh.NewWatchdog(rep, 60*time.Second)
+	wd := vh.NewWatchdog(rep, 10*time.Minute) // generous: go build of the oracle / the first fast.New() take minutes on a loaded machine
 
 	// ---- part 0: corpus
 	nCorpus := 0
